@@ -65,7 +65,7 @@ fn materialise(lab: &Lab, inj: &Inj) -> Option<(SocketAddr, Vec<u8>)> {
 }
 
 fn is_verbatim(lab: &Lab, bytes: &[u8]) -> bool {
-    (0..6).any(|k| lab.genuine(k) == bytes)
+    (0..crate::props::lab::KINDS).any(|k| lab.genuine(k) == bytes)
 }
 
 fn diff_kind(before: &str, after: &str) -> &'static str {
@@ -98,6 +98,7 @@ pub fn run_case(ctx: &Ctx, c: &Case) -> Vec<Viol> {
     }
     let strict = c.state != RState::EstPlain;
     let has_ticks = c.injections.iter().any(|i| matches!(i, Inj::Tick));
+    let mut had_verbatim = false;
     let scrub: Vec<u8> = std::iter::once(0u8).chain(std::iter::repeat(0xa5).take(700)).collect();
     for (idx, inj) in c.injections.iter().enumerate() {
         if let Inj::Tick = inj {
@@ -112,9 +113,15 @@ pub fn run_case(ctx: &Ctx, c: &Case) -> Vec<Viol> {
             Some(x) => x,
             None => continue,
         };
-        if is_verbatim(&lab, &bytes) || bytes.len() > 65000 {
-            ctx.class("datagram:verbatim-genuine-skipped");
+        if bytes.len() > 65000 {
             continue;
+        }
+        // verbatim genuine datagrams (replays, possibly of another exchange or from the wrong party) may change state
+        // legitimately: they are injected for crash-freedom only and relax the closing check of the batch
+        let verbatim = is_verbatim(&lab, &bytes);
+        if verbatim {
+            had_verbatim = true;
+            ctx.class("datagram:verbatim-genuine(crash-freedom-only)");
         }
         ctx.eval();
         // overwrite the stale bytes of T's receive buffer so that a prefix of a genuine datagram is not completed by them
@@ -132,7 +139,7 @@ pub fn run_case(ctx: &Ctx, c: &Case) -> Vec<Viol> {
             return out;
         }
         let wrote = lab.sim.take_iface(T);
-        if strict && !has_ticks {
+        if strict && !has_ticks && !had_verbatim {
             let after = lab.observe();
             if !wrote.is_empty() {
                 out.push(Viol::new(
@@ -175,7 +182,15 @@ pub fn run_case(ctx: &Ctx, c: &Case) -> Vec<Viol> {
         ));
         return out;
     }
-    if strict {
+    if strict && had_verbatim {
+        if let Err(e) = lab.probe_q() {
+            out.push(Viol::new(
+                "node-impaired-after-replayed-datagrams",
+                format!("state {:?}: after {} datagrams incl. verbatim replays from wrong parties: {}", c.state, c.injections.len(), e),
+                json!({"kind": "inject", "case": c}),
+            ));
+        }
+    } else if strict {
         if let Err(e) = lab.finish_and_probe() {
             out.push(Viol::new(
                 "node-impaired-after-outsider-datagrams",
@@ -242,7 +257,7 @@ fn grid_case(state: RState, src: Src, maxlen: usize) -> Case {
 /// truncations and length-field corruptions of every genuine kind, from wrong parties
 fn corruption_case(state: RState, src: Src, dense: bool) -> Case {
     let mut injections = vec![];
-    for kind in 0..6u8 {
+    for kind in 0..9u8 {
         for len in 0..420usize {
             if dense || len % 3 == 0 || len < 40 {
                 injections.push(Inj::Derived { src: src.clone(), kind, len, pos: usize::MAX, val: 0 });
@@ -268,7 +283,7 @@ fn inj_strategy() -> impl Strategy<Value = Inj> {
             Inj::Datagram(s, hex(&b))
         }),
         1 => (src(), proptest::collection::vec(any::<u8>(), 0..3000)).prop_map(|(s, b)| Inj::Datagram(s, hex(&b))),
-        4 => (src(), 0u8..6, 0usize..420, prop_oneof![Just(usize::MAX), 0usize..420], any::<u8>()).prop_map(|(src, kind, len, pos, val)| Inj::Derived { src, kind, len, pos, val }),
+        4 => (src(), 0u8..9, prop_oneof![0usize..420, Just(100_000usize)], prop_oneof![Just(usize::MAX), 0usize..420], any::<u8>()).prop_map(|(src, kind, len, pos, val)| Inj::Derived { src, kind, len, pos, val }),
     ]
 }
 
@@ -339,6 +354,33 @@ pub fn run(ctx: &Ctx) {
     });
     ctx.subspace("truncations and byte substitutions of 6 kinds of genuine datagrams x 7 states x 3 sources", n2, true);
 
+    // (2b) verbatim replays of genuine datagrams (of this or another exchange) from every party, repeated:
+    // crash-freedom and survival of the healthy connection only
+    let mut batches: Vec<Case> = vec![];
+    for st in ALL_STATES {
+        for src in [Src::Natural, Src::OtherPeer, Src::Stranger, Src::PeerP] {
+            for kind in 0..9u8 {
+                for reps in 1..=3usize {
+                    let mut injections = vec![];
+                    for r in 0..reps {
+                        injections.push(Inj::Derived { src: src.clone(), kind, len: 100_000, pos: usize::MAX, val: 0 });
+                        if r == 1 {
+                            // a different genuine kind in between
+                            injections.push(Inj::Derived { src: src.clone(), kind: (kind + 1) % 9, len: 100_000, pos: usize::MAX, val: 0 });
+                        }
+                    }
+                    batches.push(Case { state: st, injections });
+                }
+            }
+        }
+    }
+    let nb = batches.len() as u64;
+    ctx.par_items(&batches, |_, c| {
+        let v = run_case(ctx, c);
+        ctx.report(v);
+    });
+    ctx.subspace("verbatim replays: 7 states x 4 sources x 9 genuine kinds (incl. handshake messages of a foreign exchange) x 1..3 repetitions (crash-freedom, healthy peer unaffected)", nb, true);
+
     // (3) large random datagrams
     let big: Vec<(RState, usize)> = ALL_STATES.iter().flat_map(|s| [300usize, 1500, 9000, 65000].into_iter().map(move |l| (*s, l))).collect();
     ctx.par_items(&big, |w, (st, len)| {
@@ -373,6 +415,9 @@ pub fn run(ctx: &Ctx) {
 }
 
 pub fn replay(ctx: &Ctx, case: &Value) {
+    if crate::fuzzdrv::replay(ctx, case) {
+        return;
+    }
     if let Ok(c) = serde_json::from_value::<Case>(case["case"].clone()) {
         for _ in 0..4 {
             let v = run_case(ctx, &c);
